@@ -36,7 +36,7 @@ Definition Rnum (sp : special) : Num R := {|
   fopp := Ropp; fabs := Rabs; fsqrt := sqrt;
   fexp := exp; fsin := sin; fcos := cos; ftan := tan;
   facos := acos; fasin := asin; ftanh := tanh; ferfc := sp_erfc sp;
-  ffloor := Rfloor; flog := ln;
+  ffloor := Rfloor; flog := ln; flog10 := fun x => (ln x / ln 10)%R;
   fatan2 := sp_atan2 sp; fpow := Rpower;
   ffmod := fun x y => x - y * Rfloor (x / y);
   flt := Rltb; fle := Rleb; feqb := Reqb;
